@@ -25,13 +25,14 @@ LANGS = {
 class Template:
     def __init__(self, name, lang, nnames, ops, analysis='()', distinct=None, note='', group=None, late=None, subst_method=None, model=False):
         self.subst_method = subst_method      # None = EGraph::new (SynExprSubst); 'ExtractionSubst' / 'SynExprSubst' = EGraph::with_subst_method::<..>
+        self.ordered = None                   # optional list of name-index chains assumed strictly increasing (cuts the name orders explored; stated in the evidence)
         self.model = model                    # C03: every snapshot carries a dump of all classes (enodes_applied), judged by the model evaluator
         self.name, self.lang, self.nnames, self.ops, self.analysis, self.note = name, lang, nnames, ops, analysis, note
         self.group = group        # templates of one group are reorderings of the same history (C12)
         self.light = False        # light = EGraph::check() and the enode consistency walk only after the last operation
         self.late = late or {}    # name index -> op index at which the name is first written by the user (pattern slots): it may equal any slot issued before that point
         self.distinct = distinct      # optional list of name-index groups assumed pairwise distinct (tied-name variants)
-    def key(self): return json.dumps([self.name, self.lang, self.nnames, self.ops, self.analysis, self.distinct, sorted(self.late.items()), self.light] + ([self.subst_method, self.model] if (self.subst_method or self.model) else []), sort_keys=True, default=list)
+    def key(self): return json.dumps([self.name, self.lang, self.nnames, self.ops, self.analysis, self.distinct, sorted(self.late.items()), self.light] + ([self.subst_method, self.model] if (self.subst_method or self.model) else []) + ([self.ordered] if self.ordered else []), sort_keys=True, default=list)
     def terms(self):
         """all (sub)terms that get a handle, in order of first insertion"""
         out = []
@@ -102,6 +103,8 @@ class SymRun:
         for c in name_precondition([n for i, n in enumerate(self.N) if i not in self.t.late], f0): ex.assume(c)
         if self.t.distinct:
             for grp in self.t.distinct: ex.assume(z3.Distinct(*[self.N[i] for i in grp]))
+        for chain in (self.t.ordered or []):
+            for a, b in zip(chain, chain[1:]): ex.assume(z3.ULT(self.N[a], self.N[b]))
         for c in self.opts.get('assume', lambda N: [])(self.N): ex.assume(c)
         analysis = Unit() if self.t.analysis == '()' else Struct({}, self.t.analysis)
         sm = getattr(self.t, 'subst_method', None)
